@@ -284,7 +284,13 @@ let run_case (fuel : int) (sx : sexp) : String.t =
         cData = hexb inp;
         cG = List.map rule_of rules;
         cE = env_of_blocks (List.map block_of blocks) } in
-      if !lrspec_mode then show_ref cfg id (lrparse (rd cfg) (nat_of_int fuel))
+      if !lrspec_mode then begin
+        (* lrform=1: every rule the analysis flagged left-recursive has the form A <- A a.. / b.. (or is an alias A <- B) *)
+        let r = rd cfg in
+        let form = List.for_all (fun (ru : rule) ->
+          (not ru.r_leftrec) || (match lr_shape r ru with Some _ -> true | None -> (match ru.r_expr with ERef _ -> true | _ -> false))) r.rG in
+        show_ref cfg id (lrparse r (nat_of_int fuel)) ^ (if form then "\tlrform=1" else "\tlrform=0")
+      end
       else if !ref_mode then show_ref cfg id (rparse (rd cfg) (nat_of_int fuel))
       else show_outcome id (parse cfg (nat_of_int fuel))
   | _ -> failwith "bad case"
